@@ -6,7 +6,7 @@ TECH = "bounded symbolic execution of the clang-14 -O1 LLVM IR of the real code 
 CHECKS = {
  'C04': dict(level='other', ref='4/C04',
    text="For each of the 12 immediate mnemonics, Parser::parseInteger + InstrImm + CodeGen + emitProgramBin are executed symbolically with the literal (32 bit) and its sign symbolic; z3 proves per path that the emitted bytes decode, by the ISA prefix rule, to the operand. All 2^32 values x 2 signs, no bound on the value.",
-   note="Trusted: clang -O1 IR semantics as implemented by irsym, z3 (cross-checked by cvc5), stubs for ostream::put/write, operator new, rb-tree rebalancing; Lexer::readToken cut to 'NUMBER n' (literals >= 2^32 outside)."),
+   note="Trusted: clang -O1 IR semantics as implemented by irsym, z3 (cross-checked by cvc5), stubs for ostream::put/write, operator new, rb-tree rebalancing; Lexer::readToken cut in the encoder harness and decided separately: the real Lexer on every string of 1..10 symbolic decimal digits yields NUMBER with the decimal value (values < 2^32; larger literals outside)."),
  'C02': dict(level='other', ref='4/C02',
    text="One iteration of hexsim::Processor::run (+syscall) from an arbitrary architectural state (registers, whole memory as SMT array, input byte symbolic) is compared by z3 with ref_step() of the hexb.pdf reference simulator executed by the same engine; inductive over run length. Extra obligations: HexSimIO stream routing with symbolic stream, image loader on symbolic files.",
    note="Trusted: irsym, z3/cvc5, transcription of hexb.pdf into ref/hexref.c, HexSimIO cut to events in the step harness, std stream members stubbed; property's own address-range assumptions."),
@@ -22,22 +22,22 @@ CHECKS['C03'] = dict(level='other', ref='4/C03',
    note="Trusted: Verilator 5.006 two-state semantics, irsym, z3/cvc5, object graph wired by a generated function instead of the Verilated constructors; successor pc / LDAP result assumed inside the 800000-byte range both implementations provide; invariant oreg&15==0.")
 LNOTE = "Trusted: irsym, z3/cvc5, the independent decoder (walks the source directives with the ISA prefix rule), stubs (fstream as byte sink, BST instead of red-black rebalancing, error constructors without text); programs built by the real directive constructors; shape bound N<=3 quick / N<=4 thorough plus boundary programs."
 CHECKS['C05'] = dict(level='other', ref='4/C05',
-   text="Every program of up to N directives over {label, DATA, imm, relative ref, absolute ref, OPR, FUNC} (modulo renaming; mnemonic classes rotated) plus boundary programs (distances across 16^k, chained references, DATA-absorbed size changes) runs through the real CodeGen/emitBin with all immediates and DATA words symbolic; z3 proves on each path that the independently decoded file has every reference landing on its label, aligned DATA, zero padding and the right header. Bounded in program shape, unbounded in values.",
+   text="Every program of up to N directives over {label, DATA, imm, relative ref, absolute ref, OPR, FUNC} (modulo renaming; mnemonic classes rotated) plus boundary programs (distances across 16^k, chained references, DATA-absorbed size changes) runs through the real CodeGen/emitBin with all immediates and DATA words symbolic; z3 proves on each path that the independently decoded file has every reference landing on its label, aligned DATA, zero padding and the right header. Termination: fixed point within the step budget on every path plus a grow-only certificate (a reference started from an arbitrary encoded length never ends shorter, for every gap size; a failing certificate is inconclusive, not a violation). Bounded in program shape, unbounded in values.",
    note=LNOTE)
 CHECKS['C17'] = dict(level='other', ref='4/C17',
    text="On the C05 runs z3 proves for every instruction and DATA directive that the offset, size and label operand the listing prints from equal what the independent decoder found in the emitted bytes.",
    note=LNOTE + " Text rendering by boost::format is outside.")
 CHECKS['C10'] = dict(level='other', ref='4/C10',
-   text="Bounded totality: every path of CodeGen/emitBin on the C05 shape set plus malformed shapes, of Parser::parseDirective on all token sequences with symbolic numbers, and of the arithmetic kernels on their whole argument range ends in an emitted image or a clean exception; UB, null/out-of-bounds access, indeterminate reads and step-budget exhaustion are violations. The character-level lexer and long inputs are outside.",
+   text="Bounded totality: every path of CodeGen/emitBin on the C05 shape set plus malformed shapes, of Parser::parseDirective on all token sequences with symbolic numbers, and of the arithmetic kernels on their whole argument range ends in an emitted image or a clean exception; UB, null/out-of-bounds access, indeterminate reads and step-budget exhaustion are violations. The character-level Lexer runs on every byte string of up to 3 (4 thorough) symbolic bytes; the grow-only termination certificate of the layout iteration is decided for every gap size. Longer inputs are outside.",
    note=LNOTE)
 CHECKS['C11'] = dict(level='other', ref='4/C11',
-   text="Symbolic memory-sanitizer argument: all heap/stack objects start indeterminate in the engine and any indeterminate value reaching an emitted byte, listing field, branch or address on any path of any shape (all immediates symbolic) is reported; kernels of xcmp with initialiser-less members are run from their real constructors. Environment/ASLR dependence is covered only through this argument.",
+   text="Symbolic memory-sanitizer argument: all heap/stack objects start indeterminate in the engine and any indeterminate value reaching an emitted byte, listing field, branch or address on any path of any shape (all immediates symbolic) is reported; kernels of xcmp with initialiser-less members are run from their real constructors, and the whole X compiler is executed by the engine on a program set (skeletons, generator programs, unusual accepted programs) with all host memory indeterminate, its image compared byte for byte with the native compiler's. Environment/ASLR dependence is covered only through this argument.",
    note=LNOTE)
 CHECKS['C15'] = dict(level='translation_validation', ref='4/C15',
-   text="Symbol tables emitted for every C05 shape are compared with the independently decoded layout; the loader's debug-section reader, lookupSymbol and trace()'s symbol+offset are executed with symbolic ascending offsets and symbolic lastPC and z3 proves the reported symbol/offset; the arguments of trace() per executed instruction are proved equal to the executed byte, address and count; mnemonic strings checked against hexb.pdf.",
+   text="Symbol tables emitted for every C05 shape are compared with the independently decoded layout; the loader's debug-section reader, lookupSymbol and trace()'s symbol+offset are executed on a simulator built by its real constructor, after an earlier trace call at an arbitrary address, with symbolic ascending offsets and symbolic lastPC, and z3 proves the reported symbol/offset; the arguments of trace() per executed instruction are proved equal to the executed byte, address and count; mnemonic strings checked against hexb.pdf.",
    note=LNOTE + " boost::format cut at operator% (fed values checked, rendering outside).")
 CHECKS['C14'] = dict(level='other', ref='4/C14',
-   text="The main() functions of hexasm, xcmp, xrun and hexsim are executed from their IR with C++ exception handling modelled, under every combination of argv shape and stage outcome (returns / throws hexutil::Error / throws std::runtime_error) with Processor::run's value symbolic: exit status 0 iff nothing failed, the -o name (default a.out) is the one handed to the emitter, nothing is written after a failure, xrun/hexsim return the program's exit value (proved by z3).",
+   text="The main() functions of hexasm, xcmp, xrun and hexsim are executed from their IR with C++ exception handling modelled, under every combination of argv shape and stage outcome (returns / throws hexutil::Error / throws std::runtime_error) with Processor::run's value symbolic: exit status 0 iff nothing failed, the -o name (default a.out) is the one handed to the emitter, nothing is written after a failure (hexasm's own rejections - unknown label, unaligned absolute reference, invalid OPR - run through the real CodeGen/emitBin with the file stream an event sink), xrun/hexsim return the program's exit value (proved by z3).",
    note="Trusted: irsym's EH model, the stage cuts (library stages reduced to their outcome), enumeration of argv shapes; diagnostic text and 8-bit status truncation outside.")
 TVNOTE = "Trusted: irsym, z3/cvc5, the X reference interpreter ref/xref.py (written from xhexnotes.pdf, shares no code with xcmp), hexsim's step as ISA model (decided in C02), HexSimIO cut to events; the program space is enumerated (generator + skeletons + shipped programs), only data (inputs, designated globals) is symbolic; budgets 2000/4000 instructions, 64 paths, 60 s per program."
 CHECKS['C01'] = dict(level='translation_validation', ref='4/C01',
@@ -55,7 +55,10 @@ CHECKS['C13'] = dict(level='other', ref='4/C13',
 CHECKS['C06'] = dict(level='translation_validation', ref='4/C06',
    text="By induction from C13 and C03 plus obligations decided here: hextb's load() and hexsim's load() agree on the image words of symbolic files; hextb's handleSyscall equals hexsim's syscall() for symbolic memory and call number and runs exactly once per SVC (run() followed around an SVC); hextb's main returns run()'s value; end-to-end runs of hextb's own run() on the Verilated RTL against hexsim's run() on the same xcmp images with symbolic input bytes.",
    note="Trusted: Verilator output/semantics, irsym, z3/cvc5, libverilated externals as no-ops, HexSimIO cut to (byte, stream) events on both sides (routing decided in C02), power-on registers zero in the end-to-end runs (independence is C13); n <= 3/16 image words for the loaders, <= 1500 instructions end to end.")
-NA = {'C09': "not decidable by solver-based checking here: the claim is about every byte string driving the whole compiler (lexer, recursive-descent parser, symbol table, four AST passes, code generation, lowering, peephole, assembly) on heap-allocated polymorphic trees; symbolic source text makes the AST shape symbolic and the engine (concrete heap shape per path) could only fork per token - reaching the smallest crashing programs means ~10^6 token prefixes through an interpreter needing seconds per compile; executing the compiler IR on concrete programs would be sanitizer testing, not solver-based checking. Kernels reachable from source text are decided under C01/C04/C07/C11 (DESIGN.md section 5)."}
+NA = {}
+CHECKS['C09'] = dict(level='other', ref='13',
+   text="Bounded totality of the whole X compiler executed by the engine (Lexer, Parser, CreateSymbols, ConstProp, OptimiseExpr, CodeGen, LowerDirectives, OptimiseDirectives, hexasm::CodeGen, emitProgramBin): every byte string of up to 2 (3 thorough) symbolic bytes; every token sequence of up to 5 (7) tokens from an arbitrary token source (symbolic token kinds, the parser's switches fork on them; symbolic numbers); every statement of up to 3 (5) tokens as body of main in a declaration context; families of ill-formed and unusual programs and token-level mutants. Every path ends in an image or in a std::exception before output; null/out-of-bounds access, indeterminate reads, signed overflow, foreign exceptions and budget exhaustion are findings, replayed on an ASan+UBSan build of the real xcmp.",
+   note="Trusted: irsym, z3, models of std::istream::get/eof, libc classifiers, strtoul, boost::format (API level), operator new, rb-tree as BST; the stage sequence of Driver::run is written out in the harness (Driver::run itself: C14). Inputs longer than the bounds are outside; the engine's image is compared byte for byte with the native compiler's on every accepted program of the C11 set.")
 ALL = [json.loads(l)['id'] for l in open(os.path.join(V, 'properties.jsonl'))]
 PENDING = "check not built yet in this session (planned in DESIGN.md); not claimed until it exists"
 checks = []
